@@ -155,34 +155,68 @@ def trace_class(key, wit):
     return tail.replace('/', '-')
 
 
+ARGS_SITES = ('synthdef.py:_args_to_controls',
+              'synthdef.py:_get_valid_arg_values')
+
+
+def cleanly_rejected(viols):
+    """the build refused the signature with a ValueError/TypeError raised
+    while the parameters were being examined"""
+    return len(viols) == 1 and any(
+        viols[0][0] == f'C04/build-raises/{t}@{site}'
+        for t in ('ValueError', 'TypeError') for site in ARGS_SITES)
+
+
 def run_case(acc, H, i, prog):
-    """Programs with a 'recovered failing wrap' are decided twice: by the
-    model (which ignores the rejected helper) and differentially against the
-    same program without the rejected helper - a rejected helper leaves no
-    trace, so both must produce the same definition bytes."""
-    fw = any(f.get('fails') for f in prog['funcs'].values())
+    """Programs with a 'special' feature are decided twice: by the model and
+    differentially against a variant of the program without the feature; a
+    violation the variant does not show gets the feature's mechanism key.
+      fw     recovered failing wrap: the model ignores the rejected helper and
+             the definition bytes must equal those of the program without it
+      empty  an empty tuple default: either the build rejects the signature
+             or the parameter (no values, no slots) has no name entry
+      slag   a list of lags for a scalar parameter = its first element"""
+    special = prog.get('special')
     c = Collector(acc, False)
     b = eval_prog(c, H, i, prog)
-    if not fw:
+    has_invalid = any(p['default'][0] == 'invalid'
+                      for f in prog['funcs'].values() for p in f['params'])
+    if (special == 'empty' or has_invalid) and cleanly_rejected(c.viols):
+        acc.count('odd_default_rejected_no_verdict')
+        return
+    if has_invalid:
+        acc.count('programs_with_invalid_default_replaced')
+    if not special or (special != 'fw' and not c.viols):
+        if special:
+            acc.count('special_programs/' + special)
         for key, wit in c.viols:
             acc.violation(key, wit)
         return
-    acc.count('failed_wrap_programs')
-    prog2 = G.without_failed_wraps(prog)
+    acc.count('special_programs/' + special)
+    if special == 'fw':
+        acc.count('failed_wrap_programs')
+        prog2 = G.without_failed_wraps(prog)
+        prefix = 'C04/failed-wrap-leaves-trace/'
+    else:
+        prog2 = G.without_odd_parameters(prog)
+        prefix = {'empty': 'C04/empty-tuple-default/',
+                  'slag': 'C04/lag-list-for-scalar-parameter/'}[special]
     c2 = Collector(acc, True)
     b2 = eval_prog(c2, H, i, prog2)
     plain = {k for k, _ in c2.viols}
     traced = False
     for key, wit in c.viols:
         if key in plain:
-            acc.violation(key, wit)          # present without the helper too
+            acc.violation(key, wit)          # present without the feature too
         elif not traced:
             traced = True
             wit = dict(wit)
             wit['key_without_context'] = key
-            acc.violation('C04/failed-wrap-leaves-trace/'
-                          + trace_class(key, wit), wit)
-    if not traced and b is not None and b2 is not None:
+            wit['all_keys'] = sorted({k for k, _ in c.viols})
+            what = trace_class(key, wit) if special == 'fw' else \
+                'corrupts-definition'
+            acc.violation(prefix + what, wit)
+    if special == 'fw' and not traced and b is not None and b2 is not None:
         acc.count('failed_wrap_bytes_compared')
         if b != b2:
             acc.violation('C04/failed-wrap-leaves-trace/bytes-differ',
@@ -237,6 +271,8 @@ def eval_prog(acc, H, i, prog):
             if (isinstance(v, list) and not s.is_array and s.size == 1) or \
                     n != s.size:
                 st['shape_bad'].append((p['name'], s.size, repr(v)[:120]))
+            if s.size == 0:
+                continue            # no values, nothing to route
             if s.rate == 'ar':
                 H.iou.Out.ar(tags[key], v)
             else:
@@ -366,7 +402,7 @@ def eval_prog(acc, H, i, prog):
     acc.count('name_entries_checked', len(names))
     got_cnt = collections.Counter(names)
     exp_cnt = collections.Counter(lay['name_count'])
-    exp_pairs = sorted((s.name, s.index) for s in slots.values())
+    exp_pairs = sorted((s.name, s.index) for s in slots.values() if s.size)
     if got_cnt != exp_cnt:
         lost = {n: (exp_cnt[n], got_cnt.get(n, 0)) for n in exp_cnt
                 if got_cnt.get(n, 0) < exp_cnt[n]}
@@ -381,7 +417,7 @@ def eval_prog(acc, H, i, prog):
     elif sorted(d.param_names) != exp_pairs:
         bad = sorted(set(exp_pairs) - set(d.param_names))
         s0 = next(s for s in slots.values()
-                  if (s.name, s.index) == bad[0])
+                  if s.size and (s.name, s.index) == bad[0])
         rep_ = '/repeated-name' if lay['name_count'][s0.name] > 1 else ''
         viol(f'C04/name-table/index/{s0.rate}{rep_}', name=s0.name,
              expected_index=s0.index, decoded=d.param_names,
@@ -412,6 +448,8 @@ def eval_prog(acc, H, i, prog):
             sinks.setdefault(d.constants[u.inputs[0][1]], []).append(u)
     for key, s in slots.items():
         n = s.name
+        if s.size == 0:
+            continue
         us = sinks.get(float(tags[key]), [])
         if len(us) != 1:
             viol('C04/body-signal/sink-missing', name=n, found=len(us))
@@ -460,13 +498,28 @@ def eval_prog(acc, H, i, prog):
         viol('C04/call/no-s_new', score=repr(score)[:400])
         return raw
     pairs = list(snew[0][5:])
-    got = list(zip(pairs[0::2], pairs[1::2]))
+    got, k, ok_shape = [], 0, True
+    while k < len(pairs):           # name, value | name, '[', values..., ']'
+        if k + 1 >= len(pairs):
+            ok_shape = False
+            break
+        nm, v = pairs[k], pairs[k + 1]
+        k += 2
+        if v == '[':
+            try:
+                e = pairs.index(']', k)
+            except ValueError:
+                ok_shape = False
+                break
+            v = list(pairs[k:e])
+            k = e + 1
+        got.append((nm, v))
     exp = MC.call_mapping(prog, call['positional'], call['keywords'])
     acc.count('calls_checked')
     acc.count('call_pairs_checked', len(exp))
     if call['positional']:
         acc.count('calls_with_positional')
-    if sorted(map(repr, got)) != sorted(map(repr, exp)) or len(pairs) % 2:
+    if sorted(map(repr, got)) != sorted(map(repr, exp)) or not ok_shape:
         # classify by mechanism: which name list would explain the pairs?
         kw = list(call['keywords'].items())
         pos = call['positional']
